@@ -224,7 +224,7 @@ PROPS = {
               "seed) triples drawn from 12 dimensions, both dispatch configurations and every entry point, one third of "
               "them on the functions with hidden caches; distinct by descriptor hash (program number); non-trivial when "
               "the program contains at least one equal-argument repeat separated by other calls"),
-        require={"all": ["calls", "repeated_argument_pairs_checked", "simple_vs_table_twin_checks",
+        require={"all": ["calls", "repeated_argument_pairs_checked", "simple_vs_table_twin_checks", "fresh_process_comparisons", "concurrent_repetitions", "table_buffer_histories",
                          "cache_parameter_transitions", "function_parameter_states"]},
         assumptions=["output hashes (64-bit) stand for the output bytes", "arguments derive from the seed only; the "
                      "pre-fill pattern of outputs/scratch and the byte offset (0..56) of every buffer change between "
